@@ -68,7 +68,7 @@ impl Sub for Readers {
         "readers"
     }
     fn cases(&self, tier: Tier) -> u32 {
-        tier.pick(240, 6000)
+        tier.pick(640, 8000)
     }
     fn shards(&self, _t: Tier) -> usize {
         8
